@@ -20,6 +20,7 @@ type MountType struct {
 	InShadow bool
 	st_dev string
 	root string
+	id, parent string	// mount ID and parent ID as listed in mountinfo ("" if unknown)
 }
 
 // deviceSubroot: the directory `root` (other than "/") of a file system is visible at
@@ -144,7 +145,7 @@ func ProbeMounts() (Mounts, error) {
 			}
 		}
 		mount_list = append(mount_list, MountType{source, mtpoint, source2, workdir,
-			fstype, options, inShadow, st_dev, root})
+			fstype, options, inShadow, st_dev, root, mountID, parentID})
 		mounts[mtpoint] = &mount_list[len(mount_list) - 1]
 
 		var device *deviceType
@@ -179,7 +180,64 @@ func (m Mounts) GetMountAndSubmounts(path string) []*MountType {
 		}
 	}
 	sort.Stable(list)
+	if list.hasCoveredMount() {
+		return list.inTreeOrder()
+	}
 	return list
+}
+
+
+// covers: a and b hang below the same mount and b's mountpoint lies below a's.  Then a was
+// mounted after b, over the directory that holds b's mountpoint: b (and what is mounted below
+// b) cannot be reached, and so cannot be unmounted, before a is unmounted.
+func (a *MountType) covers(b *MountType) bool {
+	return len(a.id) > 0 && a.id != b.id && len(a.parent) > 0 && a.parent == b.parent &&
+		strings.HasPrefix(b.Mountpoint, a.Mountpoint + "/")
+}
+
+func (ml mountList) hasCoveredMount() bool {
+	for _, a := range ml {
+		for _, b := range ml {
+			if a.covers(b) {
+				return true
+			}
+		}
+	}
+	return false
+}
+
+// inTreeOrder lists the path-sorted mounts along the mount tree: every mount before the
+// mounts below it, and a covered mount together with its submounts before the mount that
+// covers it.  Unmounting in the reverse of this order always meets a mount that can be
+// reached and has nothing mounted below it.
+func (ml mountList) inTreeOrder() mountList {
+	out := make(mountList, 0, len(ml))
+	depth := make([]int, 0, len(ml))	// depth[i]: level of out[i] in the mount tree
+	for _, m := range ml {
+		at, level := len(out), 0
+		for i, p := range out {
+			if p.id == m.parent {
+				// below p: after p and everything already placed below p
+				level = depth[i] + 1
+				for at = i + 1; at < len(out) && depth[at] > depth[i]; at++ {}
+				break
+			}
+		}
+		for i, a := range out {
+			if a.covers(m) {
+				// in front of the mount that covers it
+				at = i
+				break
+			}
+		}
+		out = append(out, nil)
+		copy(out[at + 1:], out[at:])
+		out[at] = m
+		depth = append(depth, 0)
+		copy(depth[at + 1:], depth[at:])
+		depth[at] = level
+	}
+	return out
 }
 
 
